@@ -1,6 +1,7 @@
 import datetime
 import operator
 import re
+from calendar import isleap
 from collections import UserString
 from collections.abc import Callable
 from typing import Any, NamedTuple
@@ -191,6 +192,22 @@ class XmlDateTime(NamedTuple):
         )
         return -total if negative else total
 
+    @property
+    def instant(self) -> int:
+        """Exact position on the timeline in nanoseconds, used for comparisons."""
+        days = _days_before_year(self.year) + _DAYS_BEFORE_MONTH[self.month] + self.day
+        if self.month > 2 and isleap(self.year):
+            days += 1
+
+        seconds = (
+            days * DS_DAY
+            + self.hour * DS_HOUR
+            + self.minute * DS_MINUTE
+            + self.second
+            + (self.offset or 0) * DS_OFFSET
+        )
+        return seconds * 1_000_000_000 + self.fractional_second
+
     @classmethod
     def from_string(cls, string: str) -> "XmlDateTime":
         """Initialize from string with format `%Y-%m-%dT%H:%M:%S%z`."""
@@ -375,6 +392,17 @@ class XmlTime(NamedTuple):
             + (self.offset or 0) * DS_OFFSET
         )
 
+    @property
+    def instant(self) -> int:
+        """Exact position on the day timeline in nanoseconds, used for comparisons."""
+        seconds = (
+            self.hour * DS_HOUR
+            + self.minute * DS_MINUTE
+            + self.second
+            + (self.offset or 0) * DS_OFFSET
+        )
+        return seconds * 1_000_000_000 + self.fractional_second
+
     def replace(
         self,
         hour: int | None = None,
@@ -494,9 +522,18 @@ DurationType = XmlTime | XmlDateTime
 
 def _cmp(a: DurationType, b: DurationType, op: Callable) -> bool:
     if isinstance(b, a.__class__):
-        return op(a.duration, b.duration)
+        return op(a.instant, b.instant)
 
     return NotImplemented
+
+
+_DAYS_BEFORE_MONTH = [0, 0, 31, 59, 90, 120, 151, 181, 212, 243, 273, 304, 334]
+
+
+def _days_before_year(year: int) -> int:
+    """Number of days before January 1st of the (proleptic, astronomical) year."""
+    year -= 1
+    return year * 365 + year // 4 - year // 100 + year // 400
 
 
 class TimeInterval(NamedTuple):
